@@ -239,8 +239,10 @@ var modelNames = []string{"plain", "soft", "soft2", "softcol", "softemb", "soft2
 // basic models are enumerated to the full length, the variants one call shorter
 func basicModel(n string) bool { return n == "plain" || n == "soft" }
 
-// sdtModes: SkipDefaultTransaction off / in the config / in a session
-var sdtModes = []string{"", "config", "session"}
+// sdtModes: the configuration dimension (field SDT of a case): SkipDefaultTransaction
+// in the config / in a session, further Config switches, the NoReturning
+// dialector, and the whole operation inside a caller transaction that commits.
+var sdtModes = []string{"", "config", "session", "PrepareStmt", "NoReturning", "QueryFields", "DryRun", "tx"}
 
 var aguModes = []string{"off", "config", "session"}
 
@@ -350,8 +352,29 @@ var weakCalls = []freeCall{
 	{Name: `Clauses(And())`, Apply: func(db, _ *gorm.DB, _ modelKind) *gorm.DB { return db.Clauses(clause.And()) }},
 }
 
-// allCalls = alphabet + weakCalls (lookup only; the enumeration runs over alphabet)
-var allCalls = append(append([]freeCall{}, alphabet...), weakCalls...)
+// extras: further condition-free calls. They are enumerated alone and next to a
+// few partner calls (quick) / every call (thorough) and drawn in the random part,
+// instead of multiplying the core alphabet of the full enumeration.
+var extras = []freeCall{
+	{Name: `Where(nil)`, EmptyCond: true, Apply: func(db, _ *gorm.DB, _ modelKind) *gorm.DB { return db.Where(nil) }},
+	{Name: `Not(map[string]string{})`, EmptyCond: true, Apply: func(db, _ *gorm.DB, _ modelKind) *gorm.DB { return db.Not(map[string]string{}) }},
+	{Name: `Or(T{})`, EmptyCond: true, Apply: func(db, _ *gorm.DB, m modelKind) *gorm.DB {
+		return db.Or(reflect.New(m.Type).Elem().Interface())
+	}},
+	{Name: `Where([]string{})`, EmptyCond: true, Apply: func(db, _ *gorm.DB, _ modelKind) *gorm.DB { return db.Where([]string{}) }},
+	{Name: `Not(&[]T{})`, EmptyCond: true, Apply: func(db, _ *gorm.DB, m modelKind) *gorm.DB { return db.Not(m.EmptySlicePtr()) }},
+	{Name: `WithContext(ctx)`, Apply: func(db, _ *gorm.DB, _ modelKind) *gorm.DB { return db.WithContext(context.Background()) }},
+	{Name: `Session{NewDB}`, Apply: func(db, _ *gorm.DB, _ modelKind) *gorm.DB { return db.Session(&gorm.Session{NewDB: true}) }},
+	{Name: `Session{PrepareStmt}`, Apply: func(db, _ *gorm.DB, _ modelKind) *gorm.DB { return db.Session(&gorm.Session{PrepareStmt: true}) }},
+	{Name: `Distinct()`, Apply: func(db, _ *gorm.DB, _ modelKind) *gorm.DB { return db.Distinct() }},
+	{Name: `Offset(1)`, Apply: func(db, _ *gorm.DB, _ modelKind) *gorm.DB { return db.Offset(1) }},
+	{Name: `Group("id")`, Apply: func(db, _ *gorm.DB, _ modelKind) *gorm.DB { return db.Group("id") }},
+	{Name: `Set("k",1)`, Apply: func(db, _ *gorm.DB, _ modelKind) *gorm.DB { return db.Set("k", 1) }},
+	{Name: `Preload("Nope")`, Apply: func(db, _ *gorm.DB, _ modelKind) *gorm.DB { return db.Preload("Nope") }},
+}
+
+// allCalls = alphabet + weakCalls + extras (lookup only; the full enumeration runs over alphabet)
+var allCalls = append(append(append([]freeCall{}, alphabet...), weakCalls...), extras...)
 
 var alphaIndex = func() map[string]int {
 	m := map[string]int{}
@@ -361,7 +384,10 @@ var alphaIndex = func() map[string]int {
 	return m
 }()
 
-func isWeak(name string) bool { return alphaIndex[name] >= len(alphabet) }
+func isWeak(name string) bool {
+	i := alphaIndex[name]
+	return i >= len(alphabet) && i < len(alphabet)+len(weakCalls)
+}
 
 // ---- finishers ---------------------------------------------------------------------------------------
 
@@ -372,6 +398,8 @@ type finisher struct {
 	// part (the update value carries a primary key: executed globally or next to
 	// another key it would collide with the table's key constraint)
 	OffOnly bool
+	// Short: enumerated one call shorter than the others (keeps the quick tier small)
+	Short bool
 	Run     func(db *gorm.DB, m modelKind, key int) *gorm.DB // key: primary key of the model value (0 = none)
 }
 
@@ -395,6 +423,23 @@ var finishers = []finisher{
 	}},
 	{Name: `UpdateColumns(T{ID:2,Mark:7})`, OffOnly: true, Run: func(db *gorm.DB, m modelKind, k int) *gorm.DB {
 		return db.Model(m.Keyed(k)).UpdateColumns(m.MarkedKeyed(2, false))
+	}},
+	// other forms of the model value
+	{Name: `Model(T{}).Update("mark",7)`, Short: true, Run: func(db *gorm.DB, m modelKind, k int) *gorm.DB {
+		return db.Model(reflect.ValueOf(m.Keyed(k)).Elem().Interface()).Update("mark", 7)
+	}},
+	{Name: `Model(&[]T{{},{}}).Update("mark",7)`, Short: true, Run: func(db *gorm.DB, m modelKind, k int) *gorm.DB {
+		return db.Model(m.Slice(k, 0)).Update("mark", 7)
+	}},
+	{Name: `Table(t).Update("mark",7)`, Short: true, OffOnly: true, Run: func(db *gorm.DB, m modelKind, k int) *gorm.DB {
+		return db.Session(&gorm.Session{NewDB: true}).Table(m.Spec.Name).Update("mark", 7)
+	}},
+	{Name: `Delete(T{})`, Delete: true, Short: true, Run: func(db *gorm.DB, m modelKind, k int) *gorm.DB {
+		return db.Delete(reflect.ValueOf(m.Keyed(k)).Elem().Interface())
+	}},
+	{Name: `Delete(&T{},nil)`, Delete: true, Short: true, Run: func(db *gorm.DB, m modelKind, k int) *gorm.DB { return db.Delete(m.Keyed(k), nil) }},
+	{Name: `Delete(&T{},&T{})`, Delete: true, Short: true, Run: func(db *gorm.DB, m modelKind, k int) *gorm.DB {
+		return db.Delete(m.Keyed(k), m.Zero())
 	}},
 	{Name: `Delete(&T{})`, Delete: true, Run: func(db *gorm.DB, m modelKind, k int) *gorm.DB { return db.Delete(m.Keyed(k)) }},
 	{Name: `Delete(&T{},"")`, Delete: true, Run: func(db *gorm.DB, m modelKind, k int) *gorm.DB { return db.Delete(m.Keyed(k), "") }},
@@ -507,8 +552,9 @@ var deriveIndex = func() map[string]int {
 }()
 
 func open(m modelKind, agu string, sdt string) (*testdb.DB, *gorm.DB, error) {
-	cfg := gorm.Config{AllowGlobalUpdate: agu == "config", SkipDefaultTransaction: sdt == "config", NowFunc: func() time.Time { return testdb.FixedNow }}
-	d := testdb.Open(testdb.Options{Config: cfg})
+	cfg := gorm.Config{AllowGlobalUpdate: agu == "config", SkipDefaultTransaction: sdt == "config", NowFunc: func() time.Time { return testdb.FixedNow },
+		PrepareStmt: sdt == "PrepareStmt", QueryFields: sdt == "QueryFields"}
+	d := testdb.Open(testdb.Options{Config: cfg, NoReturning: sdt == "NoReturning"})
 	if err := m.Spec.Create(d.SQL); err != nil {
 		d.Close()
 		return nil, nil, err
@@ -521,8 +567,11 @@ func open(m modelKind, agu string, sdt string) (*testdb.DB, *gorm.DB, error) {
 	if agu == "session" {
 		db = db.Session(&gorm.Session{AllowGlobalUpdate: true})
 	}
-	if sdt == "session" {
+	switch sdt {
+	case "session":
 		db = db.Session(&gorm.Session{SkipDefaultTransaction: true})
+	case "DryRun":
+		db = db.Session(&gorm.Session{DryRun: true})
 	}
 	d.Rec.Reset()
 	return d, db, nil
@@ -537,12 +586,16 @@ func dumpString(rows []cond.Stored) string {
 }
 
 // forbiddenEvents lists what the driver must not see for a rejected statement.
-func forbiddenEvents(rec *recdrv.Recorder) string {
+func forbiddenEvents(rec *recdrv.Recorder, callerTx bool) string {
 	var bad []string
 	for _, e := range rec.Events() {
 		switch e.Kind {
-		case recdrv.Exec, recdrv.Query, recdrv.Prepare, recdrv.Commit:
+		case recdrv.Exec, recdrv.Query, recdrv.Prepare:
 			bad = append(bad, e.String())
+		case recdrv.Commit:
+			if !callerTx {
+				bad = append(bad, e.String())
+			}
 		}
 	}
 	return strings.Join(bad, "; ")
@@ -561,6 +614,15 @@ func checkFree(c Case) (string, error) {
 		return "", err
 	}
 	unscoped := false
+	var outer *gorm.DB
+	if c.SDT == "tx" {
+		// a caller transaction that is committed whatever the operation returns
+		outer = db.Begin()
+		if outer.Error != nil {
+			return "", outer.Error
+		}
+		db = outer
+	}
 	tx := db
 	if c.Prime != "" {
 		q := db.Model(m.Zero())
@@ -570,8 +632,11 @@ func checkFree(c Case) (string, error) {
 				return "", fmt.Errorf("unknown call %q", name)
 			}
 			q = allCalls[i].Apply(q, d.DB, m)
-			if name == "Unscoped()" {
+			switch name {
+			case "Unscoped()":
 				unscoped = true
+			case "Session{NewDB}":
+				unscoped = false
 			}
 		}
 		pi, ok := primeIndex[c.Prime]
@@ -601,8 +666,11 @@ func checkFree(c Case) (string, error) {
 			return "", fmt.Errorf("unknown call %q", name)
 		}
 		tx = allCalls[i].Apply(tx, d.DB, m)
-		if name == "Unscoped()" {
+		switch name {
+		case "Unscoped()":
 			unscoped = true
+		case "Session{NewDB}":
+			unscoped = false
 		}
 	}
 	fi, ok := finIndex[c.Fin]
@@ -611,7 +679,12 @@ func checkFree(c Case) (string, error) {
 	}
 	fin := finishers[fi]
 	res := fin.Run(tx, m, 0)
-	events := forbiddenEvents(d.Rec)
+	events := forbiddenEvents(d.Rec, outer != nil)
+	if outer != nil {
+		if err := outer.Commit().Error; err != nil {
+			return "", fmt.Errorf("commit of the caller transaction: %w", err)
+		}
+	}
 	open := d.Rec.OpenTx()
 	after, err := m.Spec.Dump(d.SQL)
 	if err != nil {
@@ -626,7 +699,7 @@ func checkFree(c Case) (string, error) {
 			return fmt.Sprintf("no error although the chain has no condition; driver saw: %s; table after: %s", events, dumpString(after)), nil
 		}
 		for _, e := range d.Rec.Events() {
-			if e.Kind == recdrv.Commit {
+			if e.Kind == recdrv.Commit && outer == nil {
 				return "a statement without condition was committed: " + events, nil
 			}
 		}
@@ -780,6 +853,9 @@ func TestC09Exhaustive(t *testing.T) {
 					if f.OffOnly && agu != "off" {
 						continue
 					}
+					if f.Short && len(prefix) == maxLen && maxLen > 0 {
+						continue
+					}
 					n++
 					if n%shards != shard {
 						continue
@@ -823,7 +899,7 @@ func TestC09Exhaustive(t *testing.T) {
 	// nothing would roll a wrongly sent statement back
 	var sdtRec func(prefix []string)
 	sdtRec = func(prefix []string) {
-		for _, mn := range modelNames {
+		for _, mn := range []string{"plain", "soft", "soft2", "appkey-soft", "compkey"} {
 			for _, sdt := range sdtModes[1:] {
 				for _, f := range finishers {
 					n++
@@ -892,6 +968,45 @@ func TestC09Exhaustive(t *testing.T) {
 			}
 		}
 	}
+	// the extra condition-free calls: alone and next to one partner call
+	var extraChains [][]string
+	for _, e := range extras {
+		extraChains = append(extraChains, []string{e.Name})
+		for _, pn := range partners {
+			extraChains = append(extraChains, []string{e.Name, pn}, []string{pn, e.Name})
+		}
+	}
+	for _, mn := range []string{"plain", "soft", "soft2", "appkey"} {
+		for _, agu := range []string{"off", "config"} {
+			if agu != "off" && !basicModel(mn) {
+				continue
+			}
+			for _, chain := range extraChains {
+				for _, f := range finishers {
+					if f.OffOnly && agu != "off" || f.Short && len(chain) > 1 {
+						continue
+					}
+					n++
+					if n%shards != shard {
+						continue
+					}
+					c := Case{Model: mn, AGU: agu, Calls: chain, Fin: f.Name}
+					reportFree(c)
+					msg, err := checkFree(c)
+					if err != nil {
+						t.Fatalf("harness: %v, case: %s", err, c)
+					}
+					if msg != "" {
+						failed++
+						if failed <= 5 {
+							harness.SaveCase("TestC09Exhaustive", c)
+							t.Errorf("C09 violated: %s, case: %s", msg, c)
+						}
+					}
+				}
+			}
+		}
+	}
 	pres := []string{""}
 	if maxLen >= 3 {
 		pres = []string{"", `Where("")`, `Unscoped()`, `Or(map{})`}
@@ -945,14 +1060,18 @@ func TestC09Random(t *testing.T) {
 	rapid.Check(t, func(rt *rapid.T) {
 		x := cond.G(rt)
 		c := Case{Model: modelNames[x.N(len(modelNames))], AGU: aguModes[x.N(3)], Fin: finishers[x.N(len(finishers))].Name}
+		pool := append(append([]freeCall{}, alphabet...), extras...)
 		for k := 3 + x.N(5); k > 0; k-- {
-			c.Calls = append(c.Calls, alphabet[x.N(len(alphabet))].Name)
+			c.Calls = append(c.Calls, pool[x.N(len(pool))].Name)
 		}
 		if finishers[finIndex[c.Fin]].OffOnly {
 			c.AGU = "off"
 		}
-		if x.Pct(30) {
-			c.SDT = sdtModes[1+x.N(2)]
+		if x.Pct(40) {
+			c.SDT = sdtModes[1+x.N(len(sdtModes)-1)]
+			if c.SDT == "DryRun" {
+				c.AGU = "off" // with AllowGlobalUpdate a dry run executes nothing either: no row to look at
+			}
 		}
 		if x.Pct(45) {
 			// used chain value: part of the calls go before the preparing operation
